@@ -578,3 +578,31 @@ def state_vector_ops(R, ctx, rid):
             ok = ok and good
         R.ob(rid, fn, "stores-" + op, ok, "%s stores %s" % (meth, got) if ok else "%s stores %s — expected %s of the stored value and %s" % (meth, got, op, param or "the other vector's clock"))
     R.floor(rid, "state-vector updaters", n, 4)
+
+
+def range_last_id(R, ctx, rid):
+    """BlockRange::last_id is exclusive on this tree (clock + len) while Item::last_id is inclusive: nobody may rely on it."""
+    Y = ctx.yrs
+    R.rule(rid, "R-TABLE contradiction between sibling accessors: Item::last_id answers the id of the LAST element (clock + len - 1) while "
+                "BlockRange::last_id — and through it Block::last_id for GC / Skip blocks — answers clock + len, one past the end. As "
+                "long as the two disagree, no code may call Block::last_id / BlockRange::last_id (expected count zero; the callers of "
+                "Item::last_id are the positive control that the matcher sees call sites): a comparison written against "
+                "`block.last_id()` is right for items and off by one for ranges. Once BlockRange::last_id is made inclusive the "
+                "clause holds vacuously")
+    br = Y.fn("yrs::block::BlockRange::last_id")
+    got = _canon(FnView(br).terms.local(0, 12))
+    exclusive = got == "ID::new(self.client, (self.clock + self.len))"
+    inclusive = got == "ID::new(self.client, ((self.clock + self.len) - 1))"
+    R.ob(rid, br, "value", exclusive or inclusive, "BlockRange::last_id = %s (%s)" % (got, "exclusive" if exclusive else "inclusive" if inclusive else "neither clock + len nor clock + len - 1"))
+    ctl = sum(len(v) for v in callers_of(Y, "yrs::block::Item::last_id").values())
+    R.floor(rid, "callers of Item::last_id (positive control)", ctl, 5)
+    if exclusive:
+        users = []
+        for root, css in sorted(callers_of(Y, "yrs::block::Block::last_id", "yrs::block::BlockRange::last_id").items()):
+            for cs in css:
+                if cs.fn.path == "yrs::block::Block::last_id":
+                    continue
+                users.append(cs)
+        for cs, site in ordinal_sites(users):
+            R.ob(rid, cs.fn, site, False, "relies on Block::last_id / BlockRange::last_id, which is one past the end for GC and Skip blocks", cs.loc())
+        R.ob(rid, br, "no-users", not users, "no code relies on the exclusive last_id of ranges: %d call site(s)" % len(users))
